@@ -74,6 +74,13 @@ func runsFor(prop, tier string) []run {
 		dups2 := dups
 		dups2.InitOps = []string{"W:0:24", "SnapU", "W:0:24", "SnapA", "W:16:8", "W:0:8", "SnapA", "W:8:8"}
 		dups2.MaxSnaps = 5
+		// a volume whose size is not a multiple of the 4 KiB block: 1.5 blocks (12 sectors)
+		odd := base
+		odd.Blocks, odd.Tail = 1, 4
+		odd.WShapes = [][2]int{{0, 8}, {8, 4}, {0, 12}, {6, 4}, {10, 2}, {3, 2}, {11, 1}}
+		odd.RShapes = [][2]int{{0, 12}, {8, 4}, {6, 6}}
+		oddP := odd
+		oddP.Punch = true
 		few := base
 		few.WShapes = [][2]int{{0, 8}, {8, 16}, {0, 24}, {3, 2}, {7, 1}, {4, 8}, {6, 12}, {12, 12}, {20, 4}}
 		fewP := few
@@ -86,6 +93,8 @@ func runsFor(prop, tier string) []run {
 			{"3blk-from-unreclaimed-duplicates", dups, pick(3, 5), minutes(pickf(0.35, 3))},
 			{"3blk-from-unreclaimed-duplicates-2", dups2, pick(3, 4), minutes(pickf(0.3, 3))},
 			{"1blk", small, pick(4, 7), minutes(pickf(0.2, 2))},
+			{"1.5blk-nopunch", odd, pick(3, 5), minutes(pickf(0.2, 2))},
+			{"1.5blk-punch", oddP, pick(3, 5), minutes(pickf(0.2, 2))},
 			{"2blk-punch", two, pick(4, 6), minutes(pickf(0.3, 4))},
 		}
 	case "C06":
